@@ -17,43 +17,46 @@ Definition mkcall (js : list job) : call :=
 
 Definition run (hint : list path) (w : node) (c : call) := create_linked_view hint (w, 0%N) c.
 
-(* 1. a view of ONE job is never up to date: the second run unlinks and re-creates the link *)
-Lemma single_job_not_noop :
+(* 1. (bfa6c64) a view of ONE job is up to date on the second run *)
+Lemma single_job_noop :
   let c := mkcall [mkjob s_j1 []] in
   let '(r1, (w1, n1)) := run [] world0 c in
   let '(r2, (w2, n2)) := run [] w1 c in
-  is_ok r1 = true /\ is_ok r2 = true /\ w2 = w1 /\ n2 = 2%N.
-Proof. vm_compute. auto. Qed.
+  is_ok r1 = true /\ is_ok r2 = true /\ w2 = w1 /\ n2 = 0%N /\ get w1 [s_v; s_job] <> None.
+Proof. vm_compute. repeat split; congruence. Qed.
 
-(* 2. DESIGN F15 reaches the view: "a/6/job" listed before "a/6/job/5/job" passes the leaf/node check,
-      and the second link is created THROUGH the first one, inside the other job's directory *)
+(* 2. (fc0e7cc) "a/6/job" together with "a/6/job/5/job" is rejected in both orders, tree untouched *)
 Definition pf_a6 : str := [97%N; 47%N; 54%N].                                    (* "a/6"       *)
 Definition pf_a6job5 : str := pf_a6 ++ [47%N] ++ s_job ++ [47%N] ++ s_5.          (* "a/6/job/5" *)
-Lemma leafnode_accepted_pollutes :
-  let c := mkcall [mkjob s_j1 pf_a6; mkjob s_j2 pf_a6job5] in
-  let '(r1, (w1, _)) := run [] world0 c in
-  is_ok r1 = true /\ get world0 [s_p; s_j1; s_5] = None /\
-  get w1 [s_p; s_j1; s_5; s_job] = Some (Lnk (join_sep [s_dotdot; s_dotdot; s_dotdot; s_dotdot; s_dotdot; s_p; s_j2])) /\
-  fst (run [] world0 (mkcall [mkjob s_j2 pf_a6job5; mkjob s_j1 pf_a6])) = Err ERuntimeError.
+Lemma leafnode_rejected_both_orders :
+  run [] world0 (mkcall [mkjob s_j1 pf_a6; mkjob s_j2 pf_a6job5]) = (Err ERuntimeError, (world0, 0%N)) /\
+  run [] world0 (mkcall [mkjob s_j2 pf_a6job5; mkjob s_j1 pf_a6]) = (Err ERuntimeError, (world0, 0%N)).
 Proof. vm_compute. auto. Qed.
 
-(* 3. two jobs, one path: silently one link *)
-Lemma duplicate_paths_merge :
-  let c := mkcall [mkjob s_j1 pf_a6; mkjob s_j2 pf_a6] in
-  exists lk w n, run [] world0 c = (Ok lk, (w, n)) /\ length lk = 1%nat /\ length (c_jobs c) = 2%nat.
-Proof. vm_compute. do 3 eexists. repeat split. Qed.
+(* 3. (55c0c50 / bfa6c64) two jobs, one path: rejected *)
+Lemma duplicate_paths_rejected_w :
+  run [] world0 (mkcall [mkjob s_j1 pf_a6; mkjob s_j2 pf_a6]) = (Err ERuntimeError, (world0, 0%N)).
+Proof. vm_compute. auto. Qed.
 
-(* 4. the empty selection links an unselected job *)
+(* 4. STILL OPEN: the empty selection links an unselected job *)
 Lemma empty_selection_links_a_job :
   let c := mkcall [] in
   exists lk w n, run [] world0 c = (Ok lk, (w, n)) /\ c_jobs c = [] /\
                  get w [s_v; s_job] = Some (Lnk (join_sep [s_dotdot; s_p; s_j2])).
 Proof. vm_compute. do 3 eexists. repeat split. Qed.
 
-(* 5. an absolute key (nested value starting with the separator) leaves the prefix *)
+(* 5. (bfa6c64) absolute or climbing keys are rejected *)
 Definition pf_abs : str := [47%N; 120%N].                                         (* "/x" *)
-Lemma absolute_key_escapes :
-  let c := mkcall [mkjob s_j1 pf_abs; mkjob s_j2 pf_a6] in
-  let '(r1, (w1, _)) := run [] world0 c in
-  is_ok r1 = true /\ get w1 [[120%N]; s_job] <> None /\ get w1 [s_v; [120%N]] = None.
+Lemma escaping_keys_rejected :
+  run [] world0 (mkcall [mkjob s_j1 pf_abs; mkjob s_j2 pf_a6]) = (Err ERuntimeError, (world0, 0%N)) /\
+  run [] world0 (mkcall [mkjob s_j1 s_dotdot; mkjob s_j2 pf_a6]) = (Err ERuntimeError, (world0, 0%N)).
+Proof. vm_compute. auto. Qed.
+
+(* 6. STILL OPEN: the leaf name as a token.  After a one-job view (link v/job), a job whose path passes
+      THROUGH "job" is linked inside the first job's directory: the old link is considered alive. *)
+Definition pf_job5 : str := s_job ++ [47%N] ++ s_5.                               (* "job/5" *)
+Lemma leaf_name_token_pollutes :
+  let '(r1, (w1, _)) := run [] world0 (mkcall [mkjob s_j1 []]) in
+  let '(r2, (w2, _)) := run [] w1 (mkcall [mkjob s_j2 pf_job5]) in
+  is_ok r1 = true /\ is_ok r2 = true /\ get w1 [s_p; s_j1; s_5] = None /\ get w2 [s_p; s_j1; s_5; s_job] <> None.
 Proof. vm_compute. repeat split; congruence. Qed.
